@@ -1,6 +1,13 @@
-// native replay for C04 (obligation solver_done_nan.postcondition): runs the REAL solver_t::done on a real program_t and a
-// real solver_state_t whose dual (or primal) residual contains a NaN, and evaluates the property's own clause
-//   status == converged  =>  eta < epsilon && ||rdual||_2 < epsilon && ||rprim||_2 < epsilon.
+// native replay for C04: every scenario runs the REAL code of the working tree and evaluates the property's own clause.
+//   done <eta> <rdual0> <rprim0> <epsilon>   the real solver_t::done on a feasible state with these residuals:
+//                                            converged => eta < eps && |rdual| < eps && |rprim| < eps
+//   scale                                    LP / QP whose objective coefficients are ~1e-4 (norm below the 1e-3 floor of the
+//                                            normalisation): converged => reported fx agrees with the objective at the returned x
+//   noineq                                   programs without inequalities whose equalities contradict each other:
+//                                            converged is never reported for an infeasible program
+//   stale                                    small QPs: are the residual fields / fx of a converged state bitwise those of the returned
+//                                            (x, u, v) (recomputed with the real program_t::update)?  On the line-search-exhausted exit they are
+//                                            those of the last trial point (tolerated: documentation); fails only beyond 1e-6 relative on fx
 // solver_t::done and solver_t::program_t are private to src/program/solver.cpp, so that translation unit is included
 // verbatim (no copy of its text); everything else comes from the library built from the working tree.
 #include <nano/configurable.h>
@@ -16,15 +23,18 @@
 #include <cstdio>
 #include <cstdlib>
 #include <cstring>
+#include <random>
+#include <string>
 
-// usage: C04_replay <eta> <rdual0> <rprim0> <epsilon>      (nan / inf accepted)
-int main(int argc, char* argv[])
+namespace
+{
+int replay_done(int argc, char* argv[])
 {
     const auto arg = [&](int i, double d) { return argc > i ? std::strtod(argv[i], nullptr) : d; };
-    const auto eta     = arg(1, 0.0);
-    const auto rdual0  = arg(2, std::numeric_limits<double>::quiet_NaN());
-    const auto rprim0  = arg(3, 0.0);
-    const auto epsilon = arg(4, 1e-10);
+    const auto eta     = arg(2, 0.0);
+    const auto rdual0  = arg(3, std::numeric_limits<double>::quiet_NaN());
+    const auto rprim0  = arg(4, 0.0);
+    const auto epsilon = arg(5, 1e-10);
 
     // minimise x subject to x = 1 and -x <= 0: the point x = 1 is feasible
     const auto program = make_linear(make_vector<scalar_t>(1.0), make_equality(make_matrix<scalar_t>(1, 1.0), make_vector<scalar_t>(1.0)),
@@ -52,4 +62,141 @@ int main(int argc, char* argv[])
                 "\"all_three_below_epsilon\": %d, \"violates\": %d}\n",
                 feasible ? 1 : 0, state.m_eta, rdual, rprim, epsilon, converged ? 1 : 0, optimal ? 1 : 0, violates ? 1 : 0);
     return violates ? 1 : 0;
+}
+
+// reported objective against the objective evaluated at the returned point, in the caller's own units
+template <class tprogram>
+int check_objective(const char* name, const tprogram& program, const matrix_t* Q, const vector_t& c)
+{
+    const auto state = solver_t{}.solve(program, make_null_logger());
+    const auto& x    = state.m_x;
+    const auto quad  = Q != nullptr ? 0.5 * x.vector().dot(Q->matrix() * x.vector()) : 0.0;
+    const auto lin   = x.vector().dot(c.vector());
+    const auto mag   = std::fabs(quad) + std::fabs(lin);
+    const auto conv  = state.m_status == solver_status::converged;
+    const auto viol  = conv && !(std::fabs(state.m_fx - (quad + lin)) <= 1e-6 * mag);
+    std::printf("{\"program\": \"%s\", \"converged\": %d, \"reported_fx\": %.17g, \"objective_at_x\": %.17g, \"violates\": %d}\n", name,
+                conv ? 1 : 0, state.m_fx, quad + lin, viol ? 1 : 0);
+    return viol ? 1 : 0;
+}
+
+int replay_scale()
+{
+    int bad = 0;
+    // min 2e-4 x1 + 1e-4 x2  s.t.  x1 + x2 >= 1, x >= 0: optimum (0, 1), value 1e-4
+    const auto c = make_vector<scalar_t>(2e-4, 1e-4);
+    const auto G = make_matrix<scalar_t>(3, -1.0, -1.0, -1.0, 0.0, 0.0, -1.0);
+    const auto h = make_vector<scalar_t>(-1.0, 0.0, 0.0);
+    bad += check_objective("LP, objective norm 2.2e-4", make_linear(c, make_inequality(G, h)), nullptr, c);
+    // min 1e-4 (x1^2 + x2^2) / 2 + 1e-4 x1  s.t.  x1 + x2 = 1, x >= 0
+    const auto Q = make_matrix<scalar_t>(2, 1e-4, 0.0, 0.0, 1e-4);
+    const auto q = make_vector<scalar_t>(1e-4, 0.0);
+    const auto A = make_matrix<scalar_t>(1, 1.0, 1.0);
+    const auto b = make_vector<scalar_t>(1.0);
+    const auto L = make_matrix<scalar_t>(2, -1.0, 0.0, 0.0, -1.0);
+    const auto l = make_vector<scalar_t>(0.0, 0.0);
+    bad += check_objective("QP, objective norm 1.7e-4", make_quadratic(Q, q, make_equality(A, b), make_inequality(L, l)), &Q, q);
+    // the same two with the objective x 1000 (a restatement: must behave the same)
+    const auto c3 = make_vector<scalar_t>(2e-1, 1e-1);
+    bad += check_objective("LP, objective x 1000", make_linear(c3, make_inequality(G, h)), nullptr, c3);
+    return bad ? 1 : 0;
+}
+
+int replay_noineq()
+{
+    int bad = 0;
+    const auto run = [&](const char* name, const matrix_t& A, const vector_t& b)
+    {
+        const auto n     = A.cols();
+        auto       Q     = matrix_t{matrix_t::zero(n, n)};
+        for (tensor_size_t i = 0; i < n; ++i) { Q(i, i) = 1.0; }
+        const auto c     = vector_t{vector_t::zero(n)};
+        const auto state = solver_t{}.solve(make_quadratic(Q, c, make_equality(A, b)), make_null_logger());
+        const auto conv  = state.m_status == solver_status::converged;
+        const auto res   = (A.matrix() * state.m_x.vector() - b.vector()).lpNorm<Eigen::Infinity>();
+        const auto viol  = conv && !(res <= 1e-6 * (1.0 + b.lpNorm<Eigen::Infinity>()));
+        std::printf("{\"program\": \"%s\", \"converged\": %d, \"equality_residual\": %g, \"violates\": %d}\n", name, conv ? 1 : 0, res, viol ? 1 : 0);
+        bad += viol ? 1 : 0;
+    };
+    run("x1 + x2 = 1, x1 + x2 = 2 (infeasible)", make_matrix<scalar_t>(2, 1.0, 1.0, 1.0, 1.0), make_vector<scalar_t>(1.0, 2.0));
+    run("x1 = 1, 0 = 1 (infeasible)", make_matrix<scalar_t>(2, 1.0, 0.0, 0.0, 0.0), make_vector<scalar_t>(1.0, 1.0));
+    run("x1 = 1, x1 = 2, x1 = 3 (more equalities than variables)", make_matrix<scalar_t>(3, 1.0, 1.0, 1.0), make_vector<scalar_t>(1.0, 2.0, 3.0));
+    return bad ? 1 : 0;
+}
+
+bool same_bits(const scalar_t a, const scalar_t b)
+{
+    return std::memcmp(&a, &b, sizeof(a)) == 0;
+}
+
+bool same_bits(const vector_t& a, const vector_t& b)
+{
+    return a.size() == b.size() && (a.size() == 0 || std::memcmp(a.data(), b.data(), sizeof(scalar_t) * static_cast<size_t>(a.size())) == 0);
+}
+
+int replay_stale(const int max_programs)
+{
+    // random small QPs (fixed generator): min x.Qx/2 + c.x  s.t.  A x = b, G x <= h, |x| <= 10 with a strictly feasible point
+    int bad = 0, shown = 0, converged = 0;
+    double worst = 0.0;
+    for (int t = 0; t < max_programs; ++t)
+    {
+        auto rng = std::mt19937_64{static_cast<uint64_t>(t) + 1U};
+        auto U   = std::uniform_real_distribution<double>{-1.0, 1.0};
+        const auto n = std::uniform_int_distribution<int>{1, 4}(rng);
+        const auto p = std::uniform_int_distribution<int>{0, n - 1}(rng);
+        const auto m = std::uniform_int_distribution<int>{1, 3}(rng);
+        auto D = matrix_t{n, n}, A = matrix_t{p, n}, G = matrix_t{m + 2 * n, n};
+        auto c = vector_t{n}, b = vector_t{p}, h = vector_t{m + 2 * n}, xs = vector_t{n};
+        for (tensor_size_t i = 0; i < D.size(); ++i) { D.data()[i] = U(rng); }
+        for (tensor_size_t i = 0; i < n; ++i) { c(i) = U(rng); xs(i) = U(rng); }
+        for (tensor_size_t i = 0; i < A.size(); ++i) { A.data()[i] = U(rng); }
+        G.matrix().setZero();
+        for (tensor_size_t i = 0; i < m; ++i) { for (tensor_size_t j = 0; j < n; ++j) { G(i, j) = U(rng); } }
+        b.vector() = A.matrix() * xs.vector();
+        for (tensor_size_t i = 0; i < m; ++i) { h(i) = (G.matrix().row(i) * xs.vector())(0) + 0.5; }
+        for (tensor_size_t i = 0; i < n; ++i) { G(m + i, i) = 1.0; h(m + i) = 10.0; G(m + n + i, i) = -1.0; h(m + n + i) = 10.0; }
+        auto Q = matrix_t{n, n};
+        Q.matrix() = D.matrix().transpose() * D.matrix();
+        const auto program = p > 0 ? make_quadratic(Q, c, make_equality(A, b), make_inequality(G, h)) : make_quadratic(Q, c, make_inequality(G, h));
+
+        const auto solver = solver_t{};
+        const auto state  = solver.solve(program, make_null_logger());
+        if (state.m_status != solver_status::converged) { continue; }
+        ++converged;
+        // the residual fields the returned (x, u, v) really have, by the real program_t::update on the real normalised program
+        const auto iprogram = solver_t::program_t{program};
+        auto       again    = state;
+        iprogram.update(again.m_x, again.m_u, again.m_v, solver.parameter("solver::miu").value<scalar_t>(), again);
+        const auto same = same_bits(again.m_fx, state.m_fx) && same_bits(again.m_eta, state.m_eta) && same_bits(again.m_rdual, state.m_rdual) &&
+                          same_bits(again.m_rprim, state.m_rprim) && same_bits(again.m_rcent, state.m_rcent);
+        if (!same)
+        {
+            ++bad;
+            const auto rel = std::fabs(again.m_fx - state.m_fx) / std::max(std::fabs(again.m_fx), 1e-300);
+            worst          = std::max(worst, rel);
+            if (shown++ < 3)
+            {
+                std::printf("{\"program\": \"generator seed %d (n=%d, p=%d, m=%d)\", \"iters\": %d, \"reported_fx\": %.17g, \"fx_at_returned_xuv\": %.17g, "
+                            "\"reported_eta\": %.17g, \"eta_at_returned_xuv\": %.17g, \"rdual_norm_reported\": %.17g, \"rdual_norm_at_returned\": %.17g}\n",
+                            t + 1, n, p, m, state.m_iters, state.m_fx, again.m_fx, state.m_eta, again.m_eta, state.m_rdual.lpNorm<2>(),
+                            again.m_rdual.lpNorm<2>());
+            }
+        }
+    }
+    // documentation of the (tolerated) last-trial-point provenance; a violation is a disagreement beyond the property's 1e-6
+    const auto violates = worst > 1e-6;
+    std::printf("{\"programs\": %d, \"converged\": %d, \"residual_fields_bitwise_not_those_of_returned_point\": %d, "
+                "\"worst_relative_fx_difference\": %g, \"violates\": %d}\n", max_programs, converged, bad, worst, violates ? 1 : 0);
+    return violates ? 1 : 0;
+}
+} // namespace
+
+int main(int argc, char* argv[])
+{
+    const auto mode = std::string{argc > 1 ? argv[1] : "done"};
+    if (mode == "scale") { return replay_scale(); }
+    if (mode == "noineq") { return replay_noineq(); }
+    if (mode == "stale") { return replay_stale(argc > 2 ? std::atoi(argv[2]) : 200); }
+    return replay_done(argc, argv);
 }
